@@ -9,6 +9,7 @@ leaves back; printing and state queries write nothing. Hence whatever happened b
 -/
 import LnnVerif.Model.PropEngine
 import Mathlib.Algebra.Order.Field.Rat
+import LnnVerif.Lemmas.FolReset
 
 namespace LNN
 
@@ -95,5 +96,43 @@ example :
     ((Session.fresh L).applyAll kb [HOp.inference (Op.call (Call.up 2))]).cur 2 = ⟨0, 0⟩ ∧ L 2 = ⟨0, 1⟩ := by
   simp [Session.fresh, Session.applyAll, Session.apply, runOp, Call.steps, callUp, runSteps, runStep,
     stepUp, aggregate, negB, clamp01]
+
+/-! ### first-order knowledge bases: no inference pass leaves a trace in the data
+
+For every first-order knowledge base and every sequence of calls (any node kinds, index or
+grounding restrictions, grounding propagation, `infer` with any arguments): the data (leaf) of
+every stored grounding is untouched, every row inference creates carries its formula's world
+default as data, and therefore `reset_bounds()` afterwards reads — for stored, created and absent
+groundings alike — exactly as `reset_bounds()` before: nothing an earlier pass proved survives.
+(What a *second run* then infers can still differ from the first because the created rows remain:
+known findings D11 / D14.) -/
+
+section fol
+
+variable {ι : Type} [DecidableEq ι] {α : Type} [Field α] [LinearOrder α] [IsStrictOrderedRing α]
+
+open FolReset
+
+theorem C16_fol_data_untouched (kb : FKB ι α) (i : ι) (g : Gr) (cs : List (FCall ι)) (p : PState ι α) :
+    dataOf kb (runPCalls kb cs p).1.st i g = dataOf kb p.st i g :=
+  dataOf_runPCalls kb i g cs p
+
+theorem C16_fol_reset_after_inference (kb : FKB ι α) (i : ι) (g : Gr) (cs : List (FCall ι)) (p : PState ι α) :
+    Table.getD (kb i).world ((resetAll (runPCalls kb cs p).1.st).get i) g =
+      Table.getD (kb i).world ((resetAll p.st).get i) g :=
+  reset_after_inference kb i g cs p
+
+theorem C16_fol_reset_after_infer (kb : FKB ι α) (i : ι) (g : Gr) (nodes : List ι) (up down : List (FCall ι))
+    (eps : α) (query : Option ι) (fuel : Nat) (p : PState ι α) :
+    Table.getD (kb i).world ((resetAll (pInferQ kb nodes up down eps query fuel p).state.st).get i) g =
+      Table.getD (kb i).world ((resetAll p.st).get i) g :=
+  reset_after_pInferQ kb i g nodes up down eps query fuel p
+
+/-- after `reset_bounds()` every query returns the data: the leaf, or the world default -/
+theorem C16_fol_reset_reads_data (kb : FKB ι α) (s : FState ι α) (i : ι) (g : Gr) :
+    Table.getD (kb i).world ((resetAll s).get i) g = dataOf kb s i g :=
+  reset_reads_data kb s i g
+
+end fol
 
 end LNN
